@@ -87,6 +87,24 @@ pub fn ref_places(a: u32, b: u32) -> Vec<u32> {
     v.sort();
     v
 }
+/// do the places tile the leaf range [a,b] exactly (each bucket under exactly one place, nothing outside), at most 8 of them?
+pub fn tiles_exactly(places: &[u32], a: u32, b: u32) -> bool {
+    if places.len() > 8 {
+        return false;
+    }
+    let mut cover = [0u8; 32];
+    for &p in places {
+        if p > 62 {
+            return false;
+        }
+        let (l, r) = ref_cover(p);
+        for x in l..=r {
+            cover[x as usize] += 1;
+        }
+    }
+    (0..32u32).all(|x| cover[x as usize] == ((a <= x && x <= b) as u8))
+}
+
 /// leaf interval covered by a heap node
 pub fn ref_cover(node: u32) -> (u32, u32) {
     let mut lvl = 0;
@@ -230,10 +248,9 @@ where
                     continue;
                 }
                 let (a, b) = self.buckets(*ri);
-                let want = ref_places(a, b);
                 let have: Vec<u32> = ch.iter().enumerate().filter(|(_, c)| c.iter().any(|(v, _)| v.id == *id)).map(|(i, _)| i as u32).collect();
-                if have != want {
-                    return Err(format!("unexpired value {id} (range #{ri}) should be stored at places {want:?}, found at {have:?}"));
+                if !tiles_exactly(&have, a, b) {
+                    return Err(format!("copies of the unexpired value {id} (range #{ri}, buckets {a}..{b}) are now at places {have:?}, which no longer tile its range: a copy was lost"));
                 }
             }
         }
@@ -245,6 +262,7 @@ where
         let kind = st.op >> 24;
         let inj = if st.inj == NO_INJ { None } else { Some(st.inj) };
         let mut ncb = 0;
+        let _ = ncb;
         match kind {
             K_INS => {
                 let ri = ((st.op >> 8) & 0xff) as u8;
@@ -264,11 +282,10 @@ where
                         if self.f.o_struct || self.f.o_purge {
                             // one insert writes at most 8 copies, exactly at the tiling places
                             let (a, b) = self.buckets(ri);
-                            let want = ref_places(a, b);
                             let ch = o.tree.verif_chunks();
                             let have: Vec<u32> = ch.iter().enumerate().filter(|(_, c)| c.iter().any(|(v, _)| v.id == id)).map(|(i, _)| i as u32).collect();
-                            if have != want || have.len() > 8 {
-                                cx.violate(prop, "placement", format!("insert of range #{ri} (buckets {a}..{b}) stored copies at places {have:?}, expected {want:?}"));
+                            if !tiles_exactly(&have, a, b) {
+                                cx.violate(prop, "placement", format!("insert of range #{ri} (buckets {a}..{b}) stored copies at places {have:?}: they do not tile the range exactly with at most 8 places (maximal tiling would be {:?})", ref_places(a, b)));
                             }
                         }
                     }
